@@ -105,6 +105,8 @@ def run(PID, mode, a, seed, t0):
     if a.replay:
         cex = json.load(open(a.replay))
         bad, raw = native_roundtrip_bad(bins, cex['range'])
+        if not bad and 'c17' in mode:
+            bad = native_canonical_bad(bins, cex, cex.get('obligation', ''))
         print(raw); print('native verdict:', bad or 'ok')
         sys.exit(1 if bad else 0)
     obs = []
@@ -136,9 +138,8 @@ def run(PID, mode, a, seed, t0):
                 obs.append(Obligation(f'{ob}[{key}]', 'inconclusive', f"solver {b['status']} on {b['cfg']}")); continue
             if 'range' in b:
                 nb, raw = native_roundtrip_bad(bins, b['range'])
-                if ob != 'roundtrip' and not nb:
-                    nb2 = native_canonical_bad(bins, b, ob)
-                    nb = nb2
+                if ob not in ('roundtrip', 'format-no-panic', 'parse-back-no-panic') and not nb:
+                    nb = native_canonical_bad(bins, b, ob)
                 cex = dict(range=b['range'], cfg=b['cfg'], detail=b.get('detail'), native=nb, reproduced=bool(nb))
             elif 'hex' in b:
                 rc, kv, raw = replay(bins, 'debug', ['parse', 'token', b['hex']])
@@ -175,16 +176,72 @@ def run(PID, mode, a, seed, t0):
 
 
 def native_canonical_bad(bins, b, ob):
-    """native confirmation for C17 findings: the printed text of the witness range is not canonical"""
-    rc, kv, raw = replay(bins, 'debug', ['roundtrip', b['range']])
+    """native confirmation for C17 findings: print the witness range with the real code and judge the text against the property with an
+    independent reference (token order, complete rank pairs <=> rank-pair tokens, token kinds, no mergeable neighbours, same text for
+    the same contents inserted in another order).  Returns a description of what is not canonical, or ''."""
+    import tokens, struct
+    from mlib import RANK_CH, SUIT_CH
+    spec = b['range']
+    rc, kv, raw = replay(bins, 'debug', ['roundtrip', spec])
+    if 'panic' in kv:
+        return 'panic: ' + kv['panic']
     text = kv.get('text', '')
-    import tokens
+    items = [x for x in spec[2:].split(',') if x]
+    rc2, kv2, raw2 = replay(bins, 'debug', ['roundtrip', 'c:' + ','.join(reversed(items))])
+    if kv2.get('text', '') != text:
+        return f'same contents inserted in reverse order print differently: {text!r} vs {kv2.get("text")!r}'
+    combos = {}
+    for it in items:
+        c, w = it.split('=')
+        combos[frozenset([(RANK_CH.index(c[0]), SUIT_CH.index(c[1])), (RANK_CH.index(c[2]), SUIT_CH.index(c[3]))])] = struct.unpack('>f', bytes.fromhex(w))[0]
+    rows = []          # (row id, [rank pair shapes in row order])
+    rows.append(('P', [RANK_CH[r] * 2 for r in range(13)]))
+    for h in range(12):
+        rows.append((f'S{h}', [RANK_CH[h] + RANK_CH[k] + 's' for k in range(h + 1, 13)]))
+        rows.append((f'O{h}', [RANK_CH[h] + RANK_CH[k] + 'o' for k in range(h + 1, 13)]))
+    complete = {}      # shape -> weight, for rank pairs all of whose combos are present with one weight
+    for rid, shapes in rows:
+        for sh in shapes:
+            den = tokens.denotation(sh)
+            if all(c in combos for c in den) and len({combos[c] for c in den}) == 1:
+                complete[sh] = combos[next(iter(den))]
     toks = [t for t in text.split(',') if t]
-    # independent judgement: expected canonical token list from the reported rank pairs
-    rp = [x.split('=') for x in kv.get('rank_pairs', '').split(',') if x]
-    n_rp_tokens = sum(1 for t in toks if tokens.denotation(t.split(':')[0]) and len(tokens.denotation(t.split(':')[0])) > 1)
-    if ob in ('maximal-runs', 'token-kind', 'complete<=>rank-pair-token', 'order', 'history-independence'):
-        return f'native text {text!r} (rank pairs {kv.get("rank_pairs")})'
+    seq = []
+    seen_cardpair = False
+    covered = {}
+    for t in toks:
+        body = t.split(':')[0]
+        w = float(t.split(':')[1]) if ':' in t else 1.0
+        den = tokens.denotation(body)
+        if den is None:
+            return f'token {t!r} in {text!r} is not a well-formed token'
+        is_cp = len(body) == 4 and body[1] in SUIT_CH
+        if is_cp:
+            seen_cardpair = True
+            continue
+        if seen_cardpair:
+            return f'rank-pair token {t!r} after a single-combo token in {text!r}'
+        # which row positions does it cover?
+        for ri, (rid, shapes) in enumerate(rows):
+            pos = [k for k, sh in enumerate(shapes) if tokens.denotation(sh) <= den]
+            if pos:
+                kind = 'plus' if body.endswith('+') else 'span' if '-' in body else 'single'
+                want = 'single' if len(pos) == 1 else 'plus' if pos[0] == 0 else 'span'
+                if kind != want:
+                    return f'token {t!r} covers {len(pos)} rank pair(s) from position {pos[0]} of its row: should be a {want} token'
+                seq.append((ri, pos[0], pos[-1], w, t))
+                for k in pos:
+                    covered[shapes[k]] = w
+                break
+    if [x[:2] for x in seq] != sorted(x[:2] for x in seq):
+        return f'rank-pair tokens out of order in {text!r}'
+    for x, y in zip(seq, seq[1:]):
+        if x[0] == y[0] and y[1] == x[2] + 1 and struct.pack('>f', x[3]) == struct.pack('>f', y[3]):
+            return f'tokens {x[4]!r} and {y[4]!r} are adjacent with equal weight and could be merged'
+    if set(covered) != set(complete):
+        miss = sorted(set(complete) - set(covered))[:3]
+        extra = sorted(set(covered) - set(complete))[:3]
+        return f'complete rank pairs {miss} are not written as rank-pair tokens / tokens cover incomplete rank pairs {extra} in {text!r}'
     return ''
 
 
